@@ -86,6 +86,15 @@ def split_frames(data):
 
 
 def run(ctx, res):
+    if ctx.scale == 1:
+        res.notes.append('probe (implementation only): well-formed streams of 2-3.5 MB fed as 1-3 chunks (reads larger than any frame)')
+        for k in range(ctx.n(4, 40)):
+            bad = wire.giant_chunk_probe(ctx.rng('giant%d' % k))
+            res.evaluations += 1
+            res.count('giant_chunk_probe')
+            if bad:
+                res.failures.append(dict(signature='C06: giant probe', what=bad, case=dict(probe='giant', k=k)))
+                break
     res.rule = ('well-formed frame sequences (0..6 frames + optional incomplete tail) x cut patterns: all 2^(n-1) for two '
                 'short streams, random cuts (single bytes, inside the header, several frames per chunk, empty reads) '
                 'otherwise; non-trivial = at least one frame and more than one chunk; distinct by (stream, cut points)')
@@ -105,6 +114,8 @@ def run(ctx, res):
 
 
 def replay(ctx, case):
+    if case.get('probe') == 'giant':
+        return wire.giant_chunk_probe(ctx.rng('giant%d' % case['k']))
     chunks = [common.unjbytes(c) for c in case['chunks']]
     data = b''.join(chunks)
     frames, tail = split_frames(data)
